@@ -112,6 +112,25 @@ pub fn check(case: &Case) -> Verdict {
     let add = catch(|| (t.add)(qa, qb));
     let sub = catch(|| (t.sub)(qa, qb));
     let div = catch(|| (t.div)(qa, qb));
+    // the trait-level functions (called by path, as generic code over
+    // `Q: Quantity` does) are the same operations
+    if let Some(cmp) = &t.cmp {
+        let show = |r: &Result<Q, String>| match r {
+            Ok(q) => format!("{} #{}", amt::key(q.0), q.1),
+            Err(_) => "panic".to_string(),
+        };
+        let showa = |r: &Result<AmountT, String>| match r {
+            Ok(x) => amt::key(*x),
+            Err(_) => "panic".to_string(),
+        };
+        let (tadd, tsub, tdiv) = (catch(|| (cmp.trait_add)(qa, qb)), catch(|| (cmp.trait_sub)(qa, qb)), catch(|| (cmp.trait_div)(qa, qb)));
+        if show(&tadd) != show(&add) || show(&tsub) != show(&sub) || showa(&tdiv) != showa(&div) {
+            fail!(
+                "{}: Quantity::add/sub/div called by path give {} / {} / {} but the operators give {} / {} / {}",
+                note, show(&tadd), show(&tsub), showa(&tdiv), show(&add), show(&sub), showa(&div)
+            );
+        }
+    }
     if same {
         for (what, got, own) in [("+", add, catch(|| a + b)), ("-", sub, catch(|| a - b))] {
             match (got, own) {
